@@ -42,6 +42,8 @@ TEMPLATES = {
               '<q metal:use-macro="template.macros[\'m\']"><u metal:fill-slot="s">${y[0]}</u></q>${seen | \'no\'}</div>',
     "code": '<?python z = [v * 2 for v in y] ?><a tal:content="z" /><b tal:define="global keep z">${keep}</b>${x}',
     "dict": '<a tal:attributes="d" tal:repeat="k sorted(d)">${k}=${d[k]}</a>${sorted(s)}',
+    "repeatstate": '<a tal:condition="x" tal:repeat="i y">${repeat.i.number}/${repeat.i.length}:${i}</a>[${exists: repeat.i}]'
+                   '<b tal:repeat="i d">${repeat.i.index}</b>',
     "onerror": '<a tal:on-error="string:E ${error.type.__name__}" tal:define="global q y">${y[5]}</a>${q | \'-\'}',
 }
 ARGS = [
@@ -308,28 +310,34 @@ def stress_part(ctx, quick):
         for rnd_i in range(rounds):
             loader = TemplateLoader(d, auto_reload=True)
             for name in TEMPLATES:
-                a = ARGS[rnd_i % 3]
-                try:
-                    want = PageTemplateFile(os.path.join(d, name + ".pt"))(**copy.deepcopy(a))
-                except Exception as e:
-                    want = "EXC " + type(e).__name__
-                results = []
-
-                def work():
+                # every thread renders with its own arguments (different loop lengths)
+                wants = {}
+                for k in range(4):
+                    a = dict(ARGS[(rnd_i + k) % 3])
+                    a["y"] = list(a["y"]) + list(range(k * 7))
                     try:
-                        results.append(loader.load(name + ".pt")(**copy.deepcopy(a)))
+                        wants[k] = PageTemplateFile(os.path.join(d, name + ".pt"))(**copy.deepcopy(a))
                     except Exception as e:
-                        results.append("EXC " + type(e).__name__)
-                ths = [threading.Thread(target=work) for _ in range(4)]
+                        wants[k] = "EXC " + type(e).__name__
+                results = {}
+
+                def work(k):
+                    a = dict(ARGS[(rnd_i + k) % 3])
+                    a["y"] = list(a["y"]) + list(range(k * 7))
+                    try:
+                        results[k] = loader.load(name + ".pt")(**copy.deepcopy(a))
+                    except Exception as e:
+                        results[k] = "EXC " + type(e).__name__
+                ths = [threading.Thread(target=work, args=(k,)) for k in range(4)]
                 for t in ths:
                     t.start()
                 for t in ths:
                     t.join(30)
                 n += 4
-                bad = [r for r in results if r != want]
-                if bad or len(results) != 4:
-                    ctx.violation("stress: template %s rendered concurrently through a shared loader returned %r, alone %r" % (name, bad[:1], want),
-                                  dict(kind="threads-stress", source=src))
+                bad = [(k, results.get(k), wants[k]) for k in range(4) if results.get(k) != wants[k]]
+                if bad:
+                    ctx.violation("stress: template %s rendered concurrently through a shared loader: thread %d returned %r, alone %r" % (
+                        (name,) + bad[0]), dict(kind="threads-stress", source=src))
                     return
     finally:
         sys.setswitchinterval(old)
